@@ -356,7 +356,9 @@ def run_property(prop, tier, seed, workers=None, examples=None, shrink=None):
     if opt is not None:
         status, payload, f = _collect_opt_child(opt)
         if status == "error":
-            errors.append("python -O shard: " + payload)
+            # the extra shard is an addition to the registered budget: its loss is reported, not turned into a verdict
+            print("WARNING python -O shard failed: " + payload[:300], file=sys.stderr)
+            total.counters["python_O_shard_failed"] = 1
         else:
             total.counters["cases_under_python_O"] = payload.evaluations
             total.merge(payload)
